@@ -252,7 +252,11 @@ func genConc(job *Job, prop string, seed, idx uint64) *RunOutcome {
 			// catalog operations on a second collection, racing with each other
 			for k := r.Range(1, 3); k > 0; k-- {
 				var op Op
-				switch r.Intn(6) {
+				switch r.Intn(8) {
+				case 6, 7:
+					// copy of a selection of the shared collection, racing with its writers
+					// (on an optimistic store the copy conflicts with any of them)
+					op = Op{K: "CreateCollectionByQuery", Coll: concColl2, Q: qOf()}
 				case 0, 1:
 					op = Op{K: "CreateCollection", Coll: concColl2}
 				case 2:
@@ -344,6 +348,23 @@ func concStep(st *model.DB, op *Op, out concOut) (bool, *model.DB) {
 		return true, n
 	case "HasCollection":
 		return expectErr("ok") && out.Has == (c != nil), st
+	case "CreateCollectionByQuery":
+		if st.Colls[op.Coll] != nil {
+			return expectErr("ErrCollectionExist"), st
+		}
+		if c == nil {
+			return expectErr("ErrCollectionNotExist"), st
+		}
+		if !expectErr("ok") {
+			return false, st
+		}
+		n := st.Clone()
+		nc := &model.Coll{Docs: map[string]model.Doc{}, Indexes: map[string]bool{}}
+		for _, id := range c.Matching(op.Q.Crit) {
+			nc.Docs[id] = c.Docs[id]
+		}
+		n.Colls[op.Coll] = nc
+		return true, n
 	}
 	if c == nil {
 		return expectErr("ErrCollectionNotExist"), st
@@ -578,6 +599,8 @@ func (cr *concRun) execOp(op *Op) (out concOut) {
 		out.Err = concErrClass(cr.db.CreateCollection(op.Coll))
 	case "DropCollection":
 		out.Err = concErrClass(cr.db.DropCollection(op.Coll))
+	case "CreateCollectionByQuery":
+		out.Err = concErrClass(cr.db.CreateCollectionByQuery(op.Coll, QueryToClover(op.Q)))
 	case "HasCollection":
 		has, err := cr.db.HasCollection(op.Coll)
 		out.Err, out.Has = concErrClass(err), has
